@@ -285,7 +285,9 @@ func NewHTTPTargeter(src io.Reader, body []byte, hdr http.Header) Targeter {
 		tgt.Body = body
 		tgt.Header = http.Header{}
 		for k, vs := range hdr {
-			tgt.Header[k] = vs
+			// Copy the default values: appending a target's own values to the
+			// shared slice would rewrite the headers of targets returned earlier.
+			tgt.Header[k] = append([]string(nil), vs...)
 		}
 
 		tokens := strings.SplitN(line, " ", 2)
